@@ -42,7 +42,8 @@ PROPOSED_FINDINGS = [{
     "witness": {"n": 2, "bytes": [1, 2, 3, 4, 5, 6], "producer": {"kind": "hold", "gaps": [0, 0, 0, 0, 0, 0]},
                 "consumer": {"kind": "period", "k": 30, "phase": 0}},
     "what": "UARTDeserializer overwrites v / restarts its hand-off FSM when the consumer's ready was high in fewer than two "
-            "cycles since the previous frame end: bytes are lost and duplicated ([1..6] arrives as [2,2,4,4,5,6] at n=2, "
+            "cycles since the previous frame end (a ready in the very clock of the next frame end still counts: exactly the "
+            "complement of Uart.keepsUp): bytes are lost and duplicated ([1..6] arrives as [2,2,4,4,5,6] at n=2, "
             "ready every 30th cycle then always); a UART has no back-pressure",
 }]
 
@@ -100,6 +101,8 @@ def consumer_ready(c, t, r):
         return 1 if (t % c['k']) == c['phase'] % c['k'] else 0
     if k == 'burst2':                                   # exactly two consecutive ready cycles every k
         return 1 if (t % c['k']) in (c['phase'] % c['k'], (c['phase'] + 1) % c['k']) else 0
+    if k == 'at':                                       # ready exactly in the listed clocks, and always from `after` on
+        return 1 if (t in c['_set'] or t >= c['after']) else 0
     if k == 'window':                                   # `width` consecutive ready cycles every `k` clocks (a polling consumer)
         return 1 if ((t + c['phase']) % c['k']) < c['width'] else 0
     if k == 'random':
@@ -116,6 +119,8 @@ def run_real(sc):
     L = RealLink(n, tuple(sc.get('freq', (2 * n * 100, 100))))
     r = Rng(sc.get('seed', 0))
     prod, cons = sc['producer'], sc['consumer']
+    if cons['kind'] == 'at':
+        cons = dict(cons, _set=set(cons['cycles']))
     bts = list(sc['bytes'])
     ins, obs, acc, dl, line = [], [], [], [], []
     ready_hist, desync_t = [], []
@@ -175,12 +180,19 @@ def run_real(sc):
 
 
 def windows_ok(ready_hist, ends):
-    """>= 2 ready cycles in every window [frame end_i, frame end_{i+1}) ; last window up to the end of the run"""
-    for i, e in enumerate(ends):
-        hi = ends[i + 1] if i + 1 < len(ends) else len(ready_hist)
-        if sum(ready_hist[e:hi]) < 2:
-            return False
-    return True
+    """transcription of Uart.keepsUp 2: c = ready cycles since the last frame end (incl. the frame-end cycle), saturating at 2;
+    at a frame end c == 2, or c == 1 with ready high in that very cycle (old byte taken at the last possible moment); c == 2 at the
+    end.  (Compared with the Lean function evaluated on the model run for every scenario.)"""
+    es = set(e for e in ends if 0 <= e < len(ready_hist))
+    c = 2
+    for t, r in enumerate(ready_hist):
+        if t in es:
+            if not (c == 2 or (c == 1 and r)):
+                return False
+            c = 1 if r else 0
+        elif r:
+            c = min(2, c + 1)
+    return c == 2
 
 
 def keeps_up_from_line(ready_hist, emit_idx):
@@ -277,6 +289,7 @@ class LinkBatch:
             if not rr['sent_all']:
                 self.res.fail(f"serializer stopped accepting: only {len(rr['accepted'])} of {len(sc['bytes'])} bytes taken within {len(rr['ins'])} cycles",
                               dict(replay, clause='progress'))
+            res.hist('keeps_up_vs_delivery', f"keeps_up={rr['keeps_up']},delivered_ok={bool(ok_del)}")
             if not ok_del:
                 self.fail_or_known(f"delivered {rr['delivered'][:12]} != accepted {rr['accepted'][:12]} (n={sc['n']}, consumer {sc['consumer']})",
                                    dict(replay, clause='delivery'))
@@ -530,6 +543,42 @@ def scenarios(rng, tier):
     return out
 
 
+def sweep_scenarios(rng, tier):
+    """(e) hand-shake delay sweep relative to the SPEC-level frame-end clock: the consumer is ready for one cycle when frame k
+    completes (valid rises) and for one more cycle d clocks later (the transfer), d = 1 .. frame spacing INCLUSIVE -- d = spacing is
+    the transfer of byte k in exactly the clock in which frame k+1 completes, the last moment at which `valid` and the old value are
+    still on the port (inside keepsUp; the unchanged code delivers).  Frame-end clocks come from a calibration run with an always-ready
+    consumer (the transmit side does not depend on the consumer) through Uart.softRx on its line (driver `softrxt`, + 2)."""
+    quick = tier == 'quick'
+    cal = []
+    data = [0x41, 0x00, 0xFF, 0x5A, 0xA5, 0x80, 0x01, 0x7E]
+    for n in ([2, 3, 5] if quick else [2, 3, 4, 5, 6, 8, 13, 20]):
+        for gaps in ([0], [3]) if quick else ([0], [3], [2 * n], [0, 7, 0, 4 * n]):
+            m = 4 if quick else 6
+            sc0 = dict(n=n, freq=(2 * n * 100, 100), bytes=data[:m], producer=dict(kind='hold', gaps=[gaps[j % len(gaps)] for j in range(m)]),
+                       consumer=dict(kind='always'), seed=0)
+            cal.append((sc0, run_real(sc0)))
+    outs = run_driver('Drv/C17.lean', [f"softrxt | {2 * sc0['n']} | {','.join(map(str, rr['line']))}" for sc0, rr in cal])
+    out = []
+    for (sc0, rr), o in zip(cal, outs):
+        n = sc0['n']
+        E = [int(x) + 2 for x in o.split(',') if x.strip() != '']
+        if len(E) < 2:
+            continue
+        spacing = min(E[i + 1] - E[i] for i in range(len(E) - 1))
+        full = (n == 2) if quick else (n <= 4)
+        ds = list(range(1, spacing + 1)) if full else sorted(set([1, 2, 3, spacing // 2, spacing - 2, spacing - 1, spacing]))
+        for d in ds:
+            cyc = sorted(set(E + [e + d for e in E]))
+            out.append(dict(sc0, consumer=dict(kind='at', cycles=cyc, after=E[-1] + spacing + 1, d=d, spacing=spacing)))
+        # every hand-shake exactly on the NEXT frame end, whatever the (varying) spacing: ready only in the frame-end clocks
+        out.append(dict(sc0, consumer=dict(kind='at', cycles=list(E), after=E[-1] + spacing + 1, d='next', spacing=spacing)))
+        # one clock too late (outside keepsUp: the known finding's class)
+        out.append(dict(sc0, consumer=dict(kind='at', cycles=sorted(set([E[0]] + [e + 1 for e in E[1:]])), after=E[-1] + 3 * spacing,
+                                           d=spacing + 1, spacing=spacing)))
+    return out
+
+
 def slow_scenarios(rng, tier):
     """consumers that do NOT keep up (outside the hypothesis of the partial theorem): the known finding's class"""
     out = [dict(PROPOSED_FINDINGS[0]['witness'], freq=(400, 100), seed=0)]
@@ -594,6 +643,14 @@ def main(res, tier, rng, replay):
         if len(lb.reqs) >= 3000:
             lb.run()
             drv.run()
+    try:
+        for sc in sweep_scenarios(rng.fork('sweep'), tier):
+            rr = lb.add(sc, full=True)
+            res.hist('sweep_d', 'd=spacing' if sc['consumer']['d'] == sc['consumer']['spacing'] else
+                     ('d=next' if sc['consumer']['d'] == 'next' else ('d>spacing' if sc['consumer']['d'] > sc['consumer']['spacing'] else 'd<spacing')))
+            _branch_hist(res, rr)
+    except ToolFailure as e:
+        res.broken.append(('correspondence', 'link', f'sweep calibration: {str(e)[:200]}'))
     lb.run()
     # ---- the known finding's class: consumers that do not keep up (re-derived on the real code every run)
     for sc in slow_scenarios(rng.fork('slow'), tier):
